@@ -32,3 +32,7 @@ M("stepinit-slope", "linesearch.py", "    dphi0 = g0.dot(d)\n", "    dphi0 = -g0
 M("cpform-delta_t-stale", "cauchy.py", "        delta_t = t_cur - t_old\n        nseg += 1\n", "        delta_t = t_cur\n        nseg += 1\n", ["CPFORM"])
 M("cpform-zero-grad-breakpoint", "cauchy.py", "    t[grad == 0] = np.inf\n", "", ["CPFORM"])
 M("cpform-counter-skips", "cauchy.py", "        _i += 1\n        try:", "        _i += 2\n        try:", ["CPFORM"])
+
+# ---- REBUILD (mutation sweep survivors: the pre-loop update of a restart)
+M("rebuild-deleted", "main.py", "        mats = update_lbfgs_matrices(\n            x.copy(),  # copy otherwise x might be changed in X when updated\n", "        mats = (lambda *a, **k: mats)(\n            x.copy(),  # copy otherwise x might be changed in X when updated\n", ["REBUILD"], canary=True)
+M("rebuild-args-swapped", "main.py", "            x.copy(),  # copy otherwise x might be changed in X when updated\n            grad,\n", "            grad,\n            x.copy(),  # copy otherwise x might be changed in X when updated\n", ["REBUILD"])
